@@ -30,7 +30,8 @@ func init() {
 	for _, id := range []string{"C08", "C09"} {
 		id := id
 		reg.Register(&reg.Check{ID: id, Level: "model_checking",
-			Run:    func(r *ev.Run) { run(r, id) },
+			Run:    func(r *ev.Run) { describe(r); reg.Isolated(r, id, 3*time.Hour) },
+			Worker: func(a []string) int { r := ev.New(id, reg.Tier, "model_checking"); run(r, id); return reg.WorkerExit(r) },
 			Replay: func(r *ev.Run, c json.RawMessage) { replayCase(r, id, c) }})
 	}
 }
@@ -240,8 +241,9 @@ func (s *Sys) Ops() []Op {
 			}
 		}
 		ops = append(ops, Op{Client: c, Msg: 1, IAPDs: [][]string{}}) // no IA_PD at all
+		ops = append(ops, Op{Client: c, Msg: 1, IAPDs: [][]string{{}, {}}}) // two IA_PDs
+		ops = append(ops, Op{Client: c, Msg: 1, IAPDs: [][]string{{"free1"}, {"len-page"}, {}}})
 		if s.rich {
-			ops = append(ops, Op{Client: c, Msg: 1, IAPDs: [][]string{{}, {}}})
 			if _, ok := s.resolve(c, "own1"); ok {
 				ops = append(ops, Op{Client: c, Msg: 5, IAPDs: [][]string{{"own1"}, {}}})
 				ops = append(ops, Op{Client: c, Msg: 5, Relay: 1, IAPDs: [][]string{{"own1"}}})
@@ -518,7 +520,12 @@ func (s *Sys) Apply(op Op, live bool) (obs string) {
 			allRepeat = false // several unspecified hints ask for several prefixes: not a plain repeat
 		}
 	}
+	heldSoFar := map[string]bool{} // prefixes delegated by earlier IA_PDs of this same reply
+	var prevGot []string
 	for _, pd := range pds {
+		for _, p := range prevGot {
+			heldSoFar[p] = true
+		}
 		idx := int(pd.iaid) - 0x1000
 		if live && len(pd.prefixes) == 0 && pd.status != 6 {
 			s.violate("C08", "empty-iapd", fmt.Sprintf("IA_PD %x answered with neither a prefix nor NoPrefixAvail (status %d)", pd.iaid, pd.status))
@@ -562,6 +569,7 @@ func (s *Sys) Apply(op Op, live bool) (obs string) {
 			}
 		}
 		obsParts = append(obsParts, fmt.Sprintf("%x:%v/st=%d", pd.iaid, got, pd.status))
+		prevGot = got
 		// ---- C09: keep your prefix
 		if idx >= 0 && idx < len(op.IAPDs) && live && len(holdBefore) > 0 {
 			hs := op.IAPDs[idx]
@@ -590,7 +598,7 @@ func (s *Sys) Apply(op Op, live bool) (obs string) {
 					}
 				}
 				for _, g := range got {
-					if !holdBefore[g] {
+					if !holdBefore[g] && !heldSoFar[g] {
 						s.violate("C09", "hintless-repeat-new-prefix", fmt.Sprintf("client %s holds %v; a hint-less IA_PD was answered with an additional prefix %s", op.Client, keys(holdBefore), g))
 						break
 					}
@@ -651,9 +659,12 @@ func pools(thorough bool) []Pool {
 	return ps
 }
 
-func run(r *ev.Run, id string) {
+func describe(r *ev.Run) {
 	r.Rule("E1: BFS to fixpoint over the real prefix plugin. Ops per client {A,B}(+C thorough): SOLICIT with one IA_PD carrying hint list in {none, ::/0, length-only (page, page-8, page+8), own 1st/2nd lease, other client's lease, highest free block (also with a longer length), out-of-pool, two free blocks, own+free, own1+own2, two ::/0}, no IA_PD, no client-id; thorough adds two IA_PDs, REQUEST/RENEW, relay depth 1. State-dependent hints are resolved from the ghost. Requests are raw wire bytes parsed by the library. State key = handler records + bitmap (hook H4) + ghost of prefixes told per client. Class = message shape/outcome.")
-	r.Assume("no lease expiry exists in the plugin; lifetimes compared one-sidedly against the harness clock; pools of 2-4 blocks")
+	r.Assume("no lease expiry exists in the plugin; lifetimes compared one-sidedly against the harness clock; pools of 2-4 blocks; the exploration runs in a worker process so that a fatal error of the code under test is reported, not suffered")
+}
+
+func run(r *ev.Run, id string) {
 	nclients := 2
 	if !r.Quick() {
 		nclients = 3
